@@ -1258,12 +1258,92 @@ def mon_c10(ix: Index):  # noqa: C901
     return out
 
 
+# =============================================================================== C07
+def mon_c07(ix: Index):  # noqa: C901, PLR0912
+    out = []
+    n = 0
+    done_ctx: dict[str, int] = {}
+    for a in ix.applied:
+        u = a.get("u")
+        if u and u.get("Type") == "CONTEXT" and u.get("Action") in ("SUCCEED", "FAIL"):
+            done_ctx[u["Id"]] = a["seq"]
+    for inv, evs in ix.by_inv.items():
+        end = next((x for x in evs if x["kind"] == "inv_end_summary"), None)
+        if end is None or not end.get("outcome") or end["outcome"]["kind"] != "return":
+            continue
+        v = end["outcome"]["value"]
+        if not isinstance(v, dict) or v.get("Status") != "PENDING":
+            continue
+        n += 1
+        stats = end["statuses"]
+        lastdel: dict[tuple, dict] = {}
+        for s in evs:
+            if s["kind"] in ("susp", "ret", "exc", "abort", "call"):
+                lastdel[(s.get("path"), s.get("phase"))] = s
+        parked = [s for s in lastdel.values() if s["kind"] == "susp" and s.get("opkind") in LEAF + ("wfcb",)]
+        for s in parked:
+            oid = s.get("oid")
+            if s.get("opkind") == "wfcb":  # parked on the callback the SDK created inside the wait_for_callback context
+                oid = ix.path2id.get(s["path"] + "@cb")
+            cur = stats.get(oid) if oid else None
+            if not armed_leaf(cur, ix.kind.get(oid)):
+                out.append(V("C07", "C07/pending-with-parked-operation-without-wake-source/%s-%s" % (s.get("opkind"), cur),
+                             "PENDING returned; %s (%s) is parked but its backend status is %s" % (s["path"], s.get("opkind"), cur), s["i"]))
+        if not any(s["kind"] == "susp" and s.get("opkind") in LEAF + ("wfcb",) for s in evs):
+            out.append(V("C07", "C07/pending-without-any-suspension", "PENDING returned but no operation suspended in this invocation", end["i"]))
+        # user functions still executing when PENDING was returned
+        active: dict[tuple, dict] = {}
+        for e in evs:
+            if e["kind"] == "fn_enter" and e.get("fnkind") in ("step", "check", "submitter") and not e.get("late") and not e.get("killed"):
+                active[(e.get("t"), e["path"])] = e
+            elif e["kind"] == "fn_exit" and e.get("fnkind") in ("step", "check", "submitter"):
+                active.pop((e.get("t"), e["path"]), None)
+        parks = [e for e in evs if (e["kind"] == "susp" and e.get("opkind") in LEAF) or (e["kind"] == "fn_exit" and e.get("fnkind") == "branch")]
+        for (t, path), e in active.items():
+            others = [p for p in parks if p.get("t") != t]
+            if not others:
+                continue
+            t_last = max(p["i"] for p in others)
+            orphan = False
+            p = ctx_path(path)
+            while p is not None:
+                if ix.path2id.get(p) in done_ctx:
+                    orphan = True
+                p = ctx_path(p)
+            if orphan:
+                continue
+            if e["i"] < t_last:
+                out.append(V("C07", "C07/pending-while-user-function-running/%s" % e.get("fnkind"),
+                             "PENDING returned while %s function at %s (entered before the last other branch parked) was still executing" % (e["fnkind"], path), e["i"]))
+    stop = ix.r.get("stop")
+    if stop == "stuck-pending":
+        out.append(V("C07", "C07/execution-never-woken", "execution is PENDING with no timer armed, no external event awaited and nothing delivered during the invocation"))
+    elif stop == "max-invocations":
+        out.append(V("C07", "C07/invocation-bound-exceeded", "execution did not reach a terminal status within %d invocations" % len(ix.r["invocations"])))
+    elif stop == "hang" and not ix.r["scenario"].get("faults"):
+        h = next((x for x in ix.trace if x["kind"] == "hang"), {})
+        if h.get("verdict") == "hang":
+            out.append(V("C07", "C07/invocation-blocked-forever", "invocation hung: every thread parked, no API call in flight", h.get("i")))
+    elif stop == "spin":
+        sp = next((x for x in ix.trace if x["kind"] == "spin"), {})
+        # classify by what the parked branches were waiting on
+        inv = sp.get("inv")
+        kinds = sorted({e.get("opkind") for e in ix.by_inv.get(inv, []) if e["kind"] == "susp" and e.get("timed") and e.get("opkind") in LEAF
+                        and e.get("until") is not None})
+        zero_timeout_invoke = any(n_["k"] == "invoke" and not (n_.get("cfg") or {}).get("timeout") for n_ in ix.nodes.values())
+        key = "C07/spin/%s" % ("branches-parked-on-invoke-with-default-timeout" if (zero_timeout_invoke and "invoke" in kinds) else "other-" + "+".join(k or "?" for k in kinds))
+        out.append(V("C07", key, "invocation keeps issuing empty checkpoints without ever suspending: %s" % sp.get("why"), sp.get("i")))
+    ix.r.setdefault("stats", {})["c07_pending_outcomes"] = n
+    return out
+
+
 MONITORS = {
     "C01": mon_c01,
     "C02": mon_c02,
     "C03": mon_c03,
     "C04": mon_c04,
     "C06": mon_c06,
+    "C07": mon_c07,
     "C08": mon_c08,
     "C09": mon_c09,
     "C10": mon_c10,
